@@ -120,7 +120,13 @@ func tryReplay(prop string, rep *OblReport, o *Obligation) *replayResult {
 	}
 	// header of the template: "//replay-pkg: module/x/mhub2/types" and "//replay-module: module"
 	pkgDir, modDir := "", "module"
+	modfile := ""
 	for _, line := range strings.Split(string(tmpl), "\n") {
+		if strings.HasPrefix(line, "//replay-modfile:") && strings.Contains(line, "connector") {
+			if mf, err := connectorModfile(); err == nil {
+				modfile = mf
+			}
+		}
 		if strings.HasPrefix(line, "//replay-pkg:") {
 			pkgDir = strings.TrimSpace(strings.TrimPrefix(line, "//replay-pkg:"))
 		}
@@ -152,7 +158,12 @@ func tryReplay(prop string, rep *OblReport, o *Obligation) *replayResult {
 	ovFile := testFile + ".overlay.json"
 	os.WriteFile(ovFile, ovb, 0o644)
 	rel := "./" + strings.TrimPrefix(pkgDir, modDir+"/")
-	cmd := exec.Command("go", "test", "-overlay", ovFile, "-vet=off", "-count=1", "-timeout", "120s", "-run", "TestGovcReplay", rel)
+	args := []string{"test", "-overlay", ovFile, "-vet=off", "-count=1", "-timeout", "120s", "-run", "TestGovcReplay"}
+	if modfile != "" {
+		args = append(args, "-modfile="+modfile)
+	}
+	args = append(args, rel)
+	cmd := exec.Command("go", args...)
 	cmd.Dir = filepath.Join("/repo", modDir)
 	cmd.Env = goEnv
 	out, _ := cmd.CombinedOutput()
